@@ -70,8 +70,9 @@ var pool = map[string][]string{
 	"Std::Object":   {`::Std::Error("boom")`},
 	"Std::Error":    {`::Std::Error("boom")`},
 
-	"Std::ArrayList":  {"[1, 2, 3]", `["a", "b"]`, "::Std::ArrayList::[::Std::Int]()"},
-	"Std::ArrayTuple": {"%[1, 2, 3]", `%["a", "b"]`},
+	// the literals after the first three are element kinds the compiler stores unboxed (specialised native lists)
+	"Std::ArrayList":  {"[1, 2, 3]", `["a", "b"]`, "::Std::ArrayList::[::Std::Int]()", "[1.5, 2.5]", "[1u8, 2u8]", "[:a, :b]"},
+	"Std::ArrayTuple": {"%[1, 2, 3]", `%["a", "b"]`, "%[1.5, 2.5]", "%[1u8, 2u8]", "%[:a, :b]"},
 	"Std::HashMap":    {`{ "a" => 1, "b" => 2 }`, `{ 1 => "x" }`},
 	"Std::HashRecord": {`%{ "a" => 1, "b" => 2 }`, `%{ 1 => "x" }`},
 	"Std::HashSet":    {"^[1, 2, 3]", `^["a", "b"]`},
@@ -182,8 +183,8 @@ var pool = map[string][]string{
 // bindings of class-level type parameters for generic receivers, chosen to agree with the pool literals
 // (index = position in the pool list); parameter names are those of the headers.
 var recvBind = map[string][]map[string]string{
-	"Std::ArrayList":            {{"Val": "Std::Int"}, {"Val": "Std::String"}, {"Val": "Std::Int"}},
-	"Std::ArrayTuple":           {{"Val": "Std::Int"}, {"Val": "Std::String"}},
+	"Std::ArrayList":            {{"Val": "Std::Int"}, {"Val": "Std::String"}, {"Val": "Std::Int"}, {"Val": "Std::Float"}, {"Val": "Std::UInt8"}, {"Val": "Std::Symbol"}},
+	"Std::ArrayTuple":           {{"Val": "Std::Int"}, {"Val": "Std::String"}, {"Val": "Std::Float"}, {"Val": "Std::UInt8"}, {"Val": "Std::Symbol"}},
 	"Std::HashMap":              {{"Key": "Std::String", "Value": "Std::Int"}, {"Key": "Std::Int", "Value": "Std::String"}},
 	"Std::HashRecord":           {{"Key": "Std::String", "Value": "Std::Int"}, {"Key": "Std::Int", "Value": "Std::String"}},
 	"Std::HashSet":              {{"Val": "Std::Int"}, {"Val": "Std::String"}},
@@ -746,7 +747,7 @@ func receiversFor(t target) []receiver {
 	c := &gctx{bind: map[string]types.Type{}}
 	if p, ok := pool[name]; ok {
 		var rs []receiver
-		for i, e := range first(p, 3) {
+		for i, e := range first(p, 6) {
 			rs = append(rs, receiver{expr: e, bind: bindOf(name, i)})
 		}
 		return rs
@@ -926,45 +927,77 @@ func makePlan(t target, maxPerParam int) plan {
 			normal = append(normal, prm)
 		}
 	}
+	seenCall := map[string]bool{}
 	for ri, rc := range recvs {
-		c := &gctx{bind: map[string]types.Type{}, self: []string{rc.expr}}
-		for k, v := range rc.bind {
-			c.bind[k] = v
+		// variant 0: method-level type parameters unbound (default binding); variant 1 ("same type"): every method-level
+		// type parameter bound to the receiver's own element/key type, so that arguments of generic collection types
+		// have the receiver's element kind (eg. a String tuple added to a String list)
+		variants := 1
+		if len(m.TypeParameters) > 0 && len(rc.bind) > 0 {
+			variants = 2
 		}
-		pools := make([][]string, len(normal))
-		ok := true
-		for i, prm := range normal {
-			pools[i] = first(gen(prm.Type, c), maxPerParam)
-			if len(pools[i]) == 0 {
-				if i < required {
-					ok = false
+		for variant := 0; variant < variants; variant++ {
+			c := &gctx{bind: map[string]types.Type{}, self: []string{rc.expr}}
+			for k, v := range rc.bind {
+				c.bind[k] = v
+			}
+			if variant == 1 {
+				var same types.Type
+				for _, k := range []string{"Val", "Key", "Value"} {
+					if v, ok := rc.bind[k]; ok {
+						same = v
+						break
+					}
 				}
-				if ri == 0 {
-					p.gapParams = append(p.gapParams, fmt.Sprintf("%s: %s", prm.Name.String(), types.Inspect(prm.Type)))
-				}
-			}
-		}
-		if !ok {
-			continue
-		}
-		for n := required; n <= len(normal); n++ {
-			if n > 0 && len(pools[n-1]) == 0 {
-				break
-			}
-			tuples := argTuples(pools[:n])
-			if ri > 0 && len(tuples) > 2 {
-				tuples = tuples[:2] // further receivers: the first two tuples per arity
-			}
-			for _, args := range tuples {
-				src, ok := callExpr(t, "r", args)
-				if !ok {
+				if same == nil {
 					continue
 				}
-				_, void := m.ReturnType.(types.Void)
-				_, never := m.ReturnType.(types.Never)
-				name := callName(t)
-				setter := name == "[]=" || (strings.HasSuffix(name, "=") && identRe.MatchString(strings.TrimSuffix(name, "=")))
-				p.calls = append(p.calls, call{recv: rc, args: args, src: src, arity: n, void: void || never || m.ReturnType == nil, setter: setter})
+				for _, tp := range m.TypeParameters {
+					if _, bound := c.bind[tp.Name.String()]; !bound {
+						c.bind[tp.Name.String()] = same
+					}
+				}
+			}
+			pools := make([][]string, len(normal))
+			ok := true
+			for i, prm := range normal {
+				pools[i] = first(gen(prm.Type, c), maxPerParam)
+				if len(pools[i]) == 0 {
+					if i < required {
+						ok = false
+					}
+					if ri == 0 {
+						p.gapParams = append(p.gapParams, fmt.Sprintf("%s: %s", prm.Name.String(), types.Inspect(prm.Type)))
+					}
+				}
+			}
+			if !ok {
+				continue
+			}
+			for n := required; n <= len(normal); n++ {
+				if n > 0 && len(pools[n-1]) == 0 {
+					break
+				}
+				tuples := argTuples(pools[:n])
+				if ri > 0 && len(tuples) > 2 {
+					tuples = tuples[:2] // further receivers: the first two tuples per arity
+				}
+				for _, args := range tuples {
+					src, ok := callExpr(t, "r", args)
+					if !ok {
+						continue
+					}
+					if key := rc.expr + "\x00" + src; seenCall[key] {
+						continue
+					} else {
+						seenCall[key] = true
+					}
+					_, void := m.ReturnType.(types.Void)
+					_, never := m.ReturnType.(types.Never)
+					name := callName(t)
+					setter := name == "[]=" || (strings.HasSuffix(name, "=") && identRe.MatchString(strings.TrimSuffix(name, "=")))
+					p.calls = append(p.calls, call{recv: rc, args: args, src: src, arity: n, void: void || never || m.ReturnType == nil, setter: setter})
+				}
 			}
 		}
 	}
@@ -1930,7 +1963,7 @@ func main() {
 		Prop:  "C28",
 		Level: "exploration",
 		Rule: "every method declared in the type environment built from the std headers, under every class/mixin/module/interface of Std (quick: a fixed list of core classes; thorough: all), " +
-			"one case per method (overloads separately): receivers from per-type literal pools (≤ 3; class type parameters bound to Int/String per pool literal; mixins through instances of ≤ 3 including classes), " +
+			"one case per method (overloads separately): receivers from per-type literal pools (≤ 6: for ArrayList/ArrayTuple also the unboxed specialisations Float, UInt8, Symbol; class type parameters bound per pool literal; mixins through instances of ≤ 3 including classes), method-level type parameters unbound (default Int) and, as a second variant, bound to the receiver's own element type, " +
 			"× every admissible arity (required … required+optional; rest parameters get no arguments) × argument tuples from per-type pools (≤ 3 values per parameter, thorough 4; full product when ≤ 12 tuples, else the first tuple and every single-parameter variation); " +
 			"each call type-checked as its own item (rejections = pool gaps, counted), run in the VM, result/thrown value inspected in Go (value.IsA) against the declared return/throw type; " +
 			"non-trivial = a call that was accepted and ran to a result or an Elk error",
